@@ -333,10 +333,20 @@ def gen_chunked(rng, payload=None, good_p=0.85):
         if rng.chance(1, 40):
             ext = rng.pick(ODD_EXTS)
             odd = True
-        out += hexsize(rng, n) + ext + CRLF + payload[pos:pos + n] + CRLF
+        size = hexsize(rng, n)
+        if rng.chance(1, 200):      # a chunk-size line of about 1000 / 4096 bytes: long extension or leading zeros
+            want = rng.pick([997, 998, 999, 1000, 1001, 1024, 4095, 4096, 4097])
+            if rng.chance(1, 2):
+                ext = b";" + (b"x" * max(0, want - len(size) - 1))
+            else:
+                size = b"0" * max(0, want - len(size) - len(ext)) + size
+        out += size + ext + CRLF + payload[pos:pos + n] + CRLF
         pos += n
         nchunks += 1
-    out += rng.pick([b"0", b"0", b"000", b"0;x", b"00;a=b"]) + CRLF
+    last = rng.pick([b"0", b"0", b"000", b"0;x", b"00;a=b"])
+    if rng.chance(1, 250):
+        last = rng.pick([b"0" * rng.pick([998, 999, 1000, 1001]), b"0;" + b"y" * rng.pick([996, 997, 998, 4094])])
+    out += last + CRLF
     trailers = []
     for _ in range(rng.below(3) if rng.chance(1, 2) else 0):
         n, v = rng.pick(TRAILER_FIELDS)
@@ -421,7 +431,8 @@ def gen_response(rng, good_p=0.75, chunked_p=0.4):
     framing = rng.random()
     info = {"framing": "none"}
     if framing < chunked_p:
-        te = rng.pick([b"chunked", b"chunked", b"Chunked", b"gzip, chunked", b"foo, bar, chunked", b" chunked ", b"a,b , cHuNkEd", b"chunked, chunked"])
+        te = rng.pick([b"chunked", b"chunked", b"Chunked", b"gzip, chunked", b"foo, bar, chunked", b" chunked ", b"a,b , cHuNkEd", b"chunked, chunked",
+                       b"gzip\t, chunked", b"gzip,\t, chunked", b"foo \t,\tbar\t ,\t chunked", b"x\t,chunked"])
         want_cl = False if rng.chance(14, 15) else numeric_value(rng)
         hb, fields = gen_header_block(rng, want_cl=want_cl, want_te=te, good_p=0.9 + good_p / 10)
         if rng.chance(1, 5):
@@ -486,13 +497,15 @@ def mutate(rng, s: bytes) -> bytes:
 # limits and schedules
 
 def around(rng, v):
-    k = rng.below(10)
-    if k == 0:
+    k = rng.below(20)
+    if k < 2:
         return None
-    if k == 1:
+    if k < 4:
         return 1000
-    if k == 2:
+    if k < 6:
         return rng.below(3)
+    if k == 6:
+        return 2 ** 64 - 1 - rng.below(3)      # the largest representable limits (arithmetic on a limit must not wrap)
     return min(2 ** 64 - 1, max(0, v + rng.randint(-2, 2)))
 
 
